@@ -53,7 +53,7 @@ Definition ideal_rule (E : env) (cls : N) (user : option N) (opts : list (str * 
   match res with
   | inr e => (ps, SigmaErr e)
   | inl r' => (ps, obind (omap (ideal_cond E (e_ne E cls) (r_dets r')) (r_conds r'))
-                         (fun l => Ok (map (finalize fmt (ps_state ps)) l)))
+                         (fun l => Ok (map (finalize fmt (ps_state ps) r') l)))
   end.
 
 (* convert_rule(rule, fmt) *)
